@@ -87,7 +87,7 @@ def o_gauss(a):
     return ok, dict(cov_err=e, sx_over_sigma=sx, sy_over_sigma=sy, corr=rho)
 
 
-def make_image(path, data, ra0, dec0, pix_arcsec=6.):
+def make_image(path, data, ra0, dec0, pix_arcsec=6., dtype=float):
     from astropy.io import fits
     ny, nx = data.shape
     h = fits.Header()
@@ -95,7 +95,7 @@ def make_image(path, data, ra0, dec0, pix_arcsec=6.):
     h['CRPIX1'], h['CRPIX2'] = 0.5 * (nx + 1), 0.5 * (ny + 1)
     h['CRVAL1'], h['CRVAL2'] = ra0, dec0
     h['CDELT1'], h['CDELT2'] = -pix_arcsec / 3600., pix_arcsec / 3600.
-    fits.PrimaryHDU(data=data.astype(float), header=h).writeto(path, overwrite=True)
+    fits.PrimaryHDU(data=data.astype(dtype), header=h).writeto(path, overwrite=True)
 
 
 def o_image(a):
@@ -107,10 +107,18 @@ def o_image(a):
     ny, nx = a['shape']
     data = g.uniform(0.2, 1., (ny, nx))
     data[g.integers(0, ny), g.integers(0, nx)] = 3.
+    dtype = float
+    if a.get('profile') == 'core':
+        # a single-precision image (BITPIX = -32) with a bright compact core on a faint plateau: every plateau pixel is far below
+        # 1e-7 of the total, yet the plateau as a whole must receive its share of the events
+        dtype = numpy.float32
+        data = numpy.full((ny, nx), 2e-8) * g.uniform(0.8, 1.2, (ny, nx))
+        data[ny // 3, nx // 2] = 1.
+        data = data.astype(numpy.float32).astype(float)
     data[0, nx - 1] = 0.       # a pixel that must stay empty
     with scratch() as d:
         path = os.path.join(d, 'img.fits')
-        make_image(path, data, a['ra'], a['dec'])
+        make_image(path, data, a['ra'], a['dec'], dtype=dtype)
         src = xExtendedSource('e', path, *spec())
         n = 400000
         u = strat(n, g)
@@ -127,7 +135,9 @@ def o_image(a):
     numpy.add.at(occ, (iy[ok], ix[ok]), 1)
     exp = data / data.sum() * n
     err = float(numpy.abs(occ - exp).max())
-    return outside == 0 and err <= 2., dict(outside=outside, max_abs_count_err=err, empty_pixel_count=float(occ[0, nx - 1]))
+    # with stratified uniforms the running count over the pixels (row-major, the order of the cumulative table) follows the running share
+    cum = float(numpy.abs(numpy.cumsum(occ.ravel()) - numpy.cumsum(exp.ravel())).max())
+    return outside == 0 and err <= 2. and cum <= 3., dict(outside=outside, max_abs_count_err=err, max_cumulative_count_err=cum, empty_pixel_count=float(occ[0, nx - 1]))
 
 
 def o_map(a):
@@ -140,6 +150,11 @@ def o_map(a):
     else:
         src = xUniformAnnulus('a', a['ra'], a['dec'], a['rmin'], a['rmax'], *spec())
     nside, pix = 40, 2.6 * a['rmax'] / 40.
+    if a.get('overview'):
+        pix *= 0.8          # a grid step no earlier call in this process has used for this centre
+        # the same object is first asked for an overview map on a coarser grid with the same centre and number of pixels; the map it
+        # reports next, on the finer grid, must be evaluated on *that* grid
+        src.build_intensity_map(build_wcs(a['ra'], a['dec'], nside, pix * a['overview']))
     w = build_wcs(a['ra'], a['dec'], nside, pix)
     imap = src.build_intensity_map(w)
     n = 400000
@@ -203,6 +218,8 @@ def explore(chk, budget=1):
             run_oracle(chk, 'gauss', dict(ra=ra, dec=dec, sigma=float(g.uniform(0.003, 0.03)), seed=sd), nontrivial=abs(dec) > 30)
             run_oracle(chk, 'map', dict(kind='disk', ra=ra, dec=dec, rmax=0.05, seed=sd))
             run_oracle(chk, 'map', dict(kind='annulus', ra=ra, dec=dec, rmin=0.02, rmax=0.05, seed=sd))
+            run_oracle(chk, 'map', dict(kind=['disk', 'annulus'][i % 4 // 2], ra=ra, dec=dec, rmin=0.02, rmax=0.05, seed=sd, overview=float(g.choice([1.6, 2.5]))))
+    run_oracle(chk, 'image', dict(shape=(128, 160) if quick else (256, 256), profile='core', ra=float(g.uniform(5, 355)), dec=float(g.uniform(-60, 60)), seed=int(g.integers(1, 10 ** 6))))
     for shape in ([(7, 7), (5, 9), (9, 5)] if quick else [(7, 7), (5, 9), (9, 5), (12, 4), (3, 11), (16, 16)]):
         run_oracle(chk, 'image', dict(shape=shape, ra=float(g.uniform(5, 355)), dec=float(g.uniform(-60, 60)), seed=int(g.integers(1, 10 ** 6))), nontrivial=shape[0] != shape[1])
 
